@@ -146,7 +146,7 @@ func runCheck(o *checkOpts) int {
 			continue
 		}
 		// relevant to this property?
-		if o.prop != "" && !contractMentions(fc, w, key, o.prop) {
+		if o.prop != "" && !pkgMentions(w, key, o.prop) && homeProp(key) != o.prop {
 			continue
 		}
 		pkgPath := key
@@ -196,7 +196,10 @@ func runCheck(o *checkOpts) int {
 			if n := seen[q.Ob.Name]; n > 1 {
 				q.Ob = &Obligation{Name: fmt.Sprintf("%s~%d", q.Ob.Name, n), Tags: q.Ob.Tags, Func: q.Ob.Func, Kind: q.Ob.Kind, Descr: q.Ob.Descr, Pos: q.Ob.Pos, Cover: q.Ob.Cover}
 			}
-			if o.prop != "" && !q.Ob.Cover && len(q.Ob.Tags) > 0 && !hasTag(q.Ob.Tags, o.prop) {
+			if o.prop != "" && !q.Ob.Cover && !hasTag(effectiveTags(q.Ob, key), o.prop) {
+				continue
+			}
+			if o.prop != "" && q.Ob.Cover && homeProp(key) != o.prop {
 				continue
 			}
 			jobs = append(jobs, job{q, fr.Short})
@@ -541,4 +544,70 @@ func violationNoInput(o *checkOpts, what, msg string, start time.Time) int {
 	eb, _ := json.MarshalIndent(ev, "", " ")
 	os.WriteFile(filepath.Join(o.verif, "evidence", prop+".json"), eb, 0o644)
 	return 1
+}
+
+
+// homeProp: untagged (core) obligations of a package are discharged by the check of its
+// home property; every other check that needs them says so in its evidence.
+func homeProp(key string) string {
+	switch {
+	case strings.Contains(key, "/internal/buffer."), strings.Contains(key, "/internal/escape."):
+		return "C01"
+	case strings.Contains(key, "/internal/rfmt"):
+		return "C05"
+	case strings.Contains(key, "/builder."):
+		return "C09"
+	case strings.Contains(key, "/internal/fmtforward."), strings.Contains(key, "/internal/redact."):
+		return "C14"
+	case strings.Contains(key, "/internal/markers."):
+		return "C07"
+	}
+	return "C08"
+}
+
+func effectiveTags(ob *Obligation, key string) []string {
+	if len(ob.Tags) > 0 {
+		return ob.Tags
+	}
+	return []string{homeProp(key)}
+}
+
+func homeOrMentioned(fc *FuncContract, w *World, key, prop string) bool {
+	return homeProp(key) == prop || contractMentions(fc, w, key, prop)
+}
+
+
+func pkgOfKey(key string) string {
+	if i := strings.Index(key, ".("); i >= 0 {
+		return key[:i]
+	}
+	k := key[:strings.LastIndex(key, ".")]
+	return k
+}
+
+var pkgMentionCache = map[string]bool{}
+
+// pkgMentions: some contract (or type invariant) of the function's package carries the property tag;
+// then every function of the package is lowered, because tagged preconditions become obligations in callers.
+func pkgMentions(w *World, key, prop string) bool {
+	if prop == "C11" {
+		return true
+	}
+	pk := pkgOfKey(key)
+	ck := pk + "|" + prop
+	if v, ok := pkgMentionCache[ck]; ok {
+		return v
+	}
+	res := false
+	for k2, fc := range w.Cs.Funcs {
+		if !strings.HasPrefix(k2, pk+".") && !strings.HasPrefix(pkgOfKey(k2), pk) {
+			continue
+		}
+		if contractMentions(fc, w, k2, prop) {
+			res = true
+			break
+		}
+	}
+	pkgMentionCache[ck] = res
+	return res
 }
